@@ -106,3 +106,11 @@ Proof.
   repeat (split; [vm_compute; reflexivity|]). vm_compute. reflexivity.
 Qed.
 Print Assumptions C17_forward_nonvacuous.
+
+(* the buffer sizes and the payload limit the model uses are the ones the current source defines (Gen/GenConsts.v is regenerated from
+   /repo/src on every run): a changed size in the source breaks this obligation *)
+From N2kV Require Gen.GenConsts.
+Example C17_constants_match_source :
+  MAXBUF = GenConsts.c_MAX_STREAM_MSG_BUF_LEN /\ ENCBUF = GenConsts.c_MaxActisenseMsgBuf /\ GenConsts.c_MaxDataLen = 223.
+Proof. repeat split; reflexivity. Qed.
+Print Assumptions C17_constants_match_source.
